@@ -39,6 +39,7 @@ fn specs() -> Vec<Spec> {
         prefill,
         prefill_flush,
         threads,
+        one_winner: None,
     };
     vec![
         s("ins-ins-same-key", vec![], false, vec![vec![Insert(1, A)], vec![Insert(2, A)]]),
@@ -83,17 +84,6 @@ fn main() {
     run.assume("weak-memory reorderings of Relaxed atomics (max_bucket_id, counters) are not modelled: schedules are sequentially consistent interleavings of the sections between yield points");
     run.assume("yield points sit only where the thread holds no DashMap shard guard and no btree/metadata lock; DashMap / parking_lot themselves are trusted");
     run.assume("flush is not run concurrently with mutations (caller's contract); DashMap iteration order inside compact_buckets is whatever the process-random hasher gives");
-    let bound = run.tier.pick(2, 3);
-    let tot = vthread::run_templates(&mut run, &ts, bound, "main");
-    let mut completed = tot.min_completed_bound;
-    if run.tier == vcore::Tier::Thorough && !tot.capped && run.in_budget() {
-        // Deeper pass with whatever time is left (reported separately).
-        let deeper = vthread::run_templates(&mut run, &ts, bound + 1, "deeper");
-        if !deeper.capped {
-            completed = deeper.min_completed_bound;
-        }
-    }
-    run.set("completed_preemption_bound", serde_json::json!(completed));
-    run.set("templates", serde_json::json!(ts.len()));
+    vthread::run_tiers(&mut run, &ts, 3, 3, 7);
     run.finish();
 }
